@@ -175,6 +175,11 @@ def run(ctx):
            fact=f"{len(options)} definitions, all outside the per-substance loop: {outside}",
            why='different substances are moved by different fractions', key='ratio redefined in loop')
 
+    ctrl = [n for n in ast.walk(loop) if isinstance(n, (ast.Continue, ast.Break))]
+    ctx.ob('C02.R2', tr, loop.lineno, 'every substance of the source is reduced by that ratio (no continue / break in the loop)',
+           not ctrl, fact=f"{len(ctrl)} continue/break statement(s) in the per-substance loop",
+           why='some substances are left out of the aliquot: its composition differs from the source', key='aliquot loop filter')
+
     # ---- R3 quantity pass-through, one call per paired well
     passthrough(ctx)
     return {'explanation': 'R1: each unit branch of the transfer computes ratio = requested / total with the numerator '
